@@ -15,3 +15,12 @@ func init() {
 func VerifSetTimeOffset(d time.Duration) {
 	timeOffset = d
 }
+
+// verifClock, when set (and when the build overlay makes GetTime consult it), replaces the
+// clock GetTime reads: the harness decides what every single call returns.
+var verifClock func() time.Time
+
+// VerifSetClock installs (or, with nil, removes) the harness clock.
+func VerifSetClock(f func() time.Time) {
+	verifClock = f
+}
